@@ -182,6 +182,8 @@ def c18(tier, seed):
         kinds = [p["kind"] for p in r["puts"]]
         if sc["gate"] == "fail" and "live" in kinds:
             run.witness("gate_failed_after_live_results_were_put")
+            if r.get("nothing_counted"):
+                run.witness("live_results_put_although_nothing_was_counted_yet")
         if sc["env"] == "local" and "conformalization" in kinds:
             run.witness("conformalization_put_in_local_env")
         if sc["env"] == "remote" and "results" not in sc["opts"] and sc["gate"] == "pass":
@@ -217,6 +219,7 @@ def c18(tier, seed):
     run.finish(
         require_witnesses=[
             "gate_failed_after_live_results_were_put",
+            "live_results_put_although_nothing_was_counted_yet",
             "conformalization_put_in_local_env",
             "remote_run_without_results_option",
             "local_run_with_results_option",
